@@ -238,6 +238,12 @@ VARIANTS = [
     V("finalizer takes the last intermediate for the counts unconditionally", ("C05", "C03"), "R-COUNTER", "core.py", '    if min_count > 0:\n        counts = squeezed["intermediates"][-1]\n        squeezed["intermediates"] = squeezed["intermediates"][:-1]\n', '    counts = squeezed["intermediates"][-1]\n    if min_count > 0:\n        squeezed["intermediates"] = squeezed["intermediates"][:-1]\n', must_mention="last intermediate"),
     V("complex +inf sentinel built by arithmetic", ("C04", "C20"), "R-INFRESOLVE", "xrdtypes.py", '        return complex(np.inf, np.inf)', '        return np.inf + 1j * np.inf', must_mention="NaN"),
     V("twin: complex +inf sentinel from two float infinities", ("C04", "C20"), "", "xrdtypes.py", '        return complex(np.inf, np.inf)', '        return complex(float("inf"), float("inf"))', expect="silent"),
+    V("fill kernel takes max() == 0 for a single group", ("C10",), "R-ONESIDED", "aggregate_flox.py", '    group_idx, array, perm = _prepare_for_flox(group_idx, array)\n    shape = array.shape\n    ndim = array.ndim\n', '    if group_idx.max() == 0:\n        perm = slice(None)\n    else:\n        group_idx, array, perm = _prepare_for_flox(group_idx, array)\n    shape = array.shape\n    ndim = array.ndim\n', must_mention="-1"),
+    V("twin: single-group shortcut tests both ends", ("C10",), "", "aggregate_flox.py", '    group_idx, array, perm = _prepare_for_flox(group_idx, array)\n    shape = array.shape\n    ndim = array.ndim\n', '    if group_idx.max() == 0 and group_idx.min() == 0:\n        perm = slice(None)\n    else:\n        group_idx, array, perm = _prepare_for_flox(group_idx, array)\n    shape = array.shape\n    ndim = array.ndim\n', expect="silent"),
+    V("finalizer skips its re-index when the found labels are the requested ones as a set", ("C16", "C05"), "R-REINDEXSKIP", "core.py", '    if not reindex.blockwise and expected_groups is not None:\n        # the final dtype has room', '    complete = expected_groups is not None and len(squeezed["groups"]) == len(expected_groups) and bool(pd.Index(squeezed["groups"]).isin(expected_groups).all())\n    if not reindex.blockwise and expected_groups is not None and not complete:\n        # the final dtype has room', must_mention="permutation"),
+    V("twin: finalizer skips its re-index for labels equal in order", ("C16", "C05"), "", "core.py", '    if not reindex.blockwise and expected_groups is not None:\n        # the final dtype has room', '    same = expected_groups is not None and pd.Index(squeezed["groups"]).equals(expected_groups)\n    if not reindex.blockwise and expected_groups is not None and not same:\n        # the final dtype has room', expect="silent"),
+    V("eager arg reductions run their kernel in the final dtype", ("C19",), "R-INTINDEX", "aggregations.py", '        agg.dtype["numpy"] = (np.dtype(np.intp),)\n', '', must_mention="N-d"),
+    V("numpy-engine nanmax answers all-NaN groups with NaN", ("C06", "C04"), "R-ALLNANFILL", "aggregate_npg.py", 'def nansum(group_idx, array, engine, *, axis=-1, size=None, fill_value=None, dtype=None):', 'def _nan_minmax(group_idx, array, engine, *, func, axis=-1, size=None, fill_value=None, dtype=None):\n    aggregate = _get_aggregate(engine).aggregate\n    result = aggregate(group_idx, array, axis=axis, func=func, size=size, fill_value=fill_value, dtype=dtype)\n    allnan = aggregate(group_idx, np.isnan(array), axis=axis, func="all", size=size, fill_value=False)\n    result[allnan] = np.nan\n    return result\n\n\nnanmax = partial(_nan_minmax, func="nanmax")\nnanmin = partial(_nan_minmax, func="nanmin")\n\n\ndef nansum(group_idx, array, engine, *, axis=-1, size=None, fill_value=None, dtype=None):', must_mention="NaN-propagating"),
     V("dtype promotion memoised with an untyped key", ("C14",), "R-MEMO", "xrdtypes.py", '        dtype = np.result_type(dtype, fill_value)\n    return dtype\n',
       '        dtype = _promote_for_fill_value(dtype, fill_value)\n    return dtype\n\n\n@functools.lru_cache\ndef _promote_for_fill_value(dtype: np.dtype, fill_value) -> np.dtype:\n    return np.result_type(dtype, fill_value)\n', must_mention="typed"),
     V("twin: dtype promotion memoised with typed=True", ("C14",), "", "xrdtypes.py", '        dtype = np.result_type(dtype, fill_value)\n    return dtype\n',
